@@ -369,8 +369,16 @@ impl Add<f64> for Epoch {
     type Output = Self;
 
     fn add(self, seconds: f64) -> Self {
+        // The whole seconds are added in integer arithmetic: their product with 1e9 is not exact in f64
+        // from 4_611_686_019 s (about 146 years) onward. The fraction (exact in f64) goes through the float path.
+        let whole = seconds.trunc();
+        let duration = if whole.abs() < i64::MAX as f64 {
+            self.duration + (whole as i64) * Unit::Second + (seconds - whole) * Unit::Second
+        } else {
+            self.duration + seconds * Unit::Second
+        };
         Self {
-            duration: self.duration + seconds * Unit::Second,
+            duration,
             time_scale: self.time_scale,
         }
     }
